@@ -128,7 +128,7 @@ inductive ARule where
   `media [] none []` (the DOM has the constructor's `all` and no rules) -/
   | media (mq : List Tok) (name : Option Cps) (rules : List ARule)
   | fontface (items : List AItem)
-  /-- page selector (name, pseudo-page ident as written), declarations, margin boxes -/
+  /-- page selector (name as written; pseudo-page name: `first` / `left` / `right`, any other as written), declarations, margin boxes -/
   | page (name pseudo : Option Cps) (items : List AItem) (margins : List AMargin)
   /-- import target, media query list (opaque tokens; `none` = no list, i.e. `all`), name -/
   | import_ (href : Cps) (mq : Option (List Tok)) (name : Option Cps)
@@ -218,6 +218,8 @@ structure SPageSel where
   name : Option Cps := none
   mid : List Cps := []
   pseudo : Option Cps := none
+  /-- letter case / simple escapes of the pseudo-page name (`:first`, `:left`, `:right` are recognised in any) -/
+  pseudoSp : Mask := []
   deriving Repr
 
 mutual
@@ -403,7 +405,7 @@ def SPageSel.toks (s : SPageSel) : List Tok :=
     | some n => identTok n :: s.mid.map commentTok
     | none => []) ++
   (match s.pseudo with
-    | some p => [colonTok, identTok p]
+    | some p => [colonTok, identTok (spell s.pseudoSp p)]
     | none => [])
 
 mutual
